@@ -34,6 +34,18 @@ UNITS = [
          spec=['C01/h_lemma.c'], harness='h_lemma_single_winner', loop_contracts=True, defines=DEFS, kind='lemma', under_contract=['lemma over the exchange primitive (protocol F, owner cell)']),
     plain('ab_resume', 'ab_resume', r'^cocls::future<int>::awaitable_bool::await_resume\(\)$'),
 ]
+
+# "its state never changes afterwards" also binds the waiters' side: a subscription must never be pushed on top of the ready marker.
+# That clause lives in the protocol-F primitive and is exercised by the subscription units of C02, re-run here.
+import importlib.util as _ilu, os as _os, copy as _copy
+def _c02(names):
+    s = _ilu.spec_from_file_location('c01_c02', _os.path.join(_os.path.dirname(_os.path.dirname(_os.path.abspath(__file__))), 'C02', 'units.py')); m = _ilu.module_from_spec(s); s.loader.exec_module(m)
+    out = []
+    for x in m.UNITS:
+        if x['name'] in names:
+            v = _copy.deepcopy(x); v['name'] = 'C02_' + x['name']; out.append(v)
+    return out
+UNITS += _c02(['subscribe_check_ready', 'co_await_suspend', 'co_await_suspend_fn', 'co_sync'])
 META = dict(
     level='proof',
     level_text='promise<int>::claim, set_value/operator()(value), set_value(drop), set_exception, ~promise, promise(promise&&), operator bool, future<int>::future(), get_promise, ready/pending/initialized, value() (complete outcome map incl. the exception types thrown), ~future, has_value().await_resume are each verified against a contract taken from the property statement, thread-modularly: every atomic instruction runs through protocol-F primitives that first let the environment act (another caller may take the right to resolve at any instant, other threads may subscribe, another winner may resolve) and then check the step against the protocol (only the token holder marks the future ready, never twice, never a plain store on a shared cell). Success <=> this call took the token and swung the slot; the payload at the instant of resolution and at return is exactly the argument; failure leaves no trace (no RMW on the slot, payload untouched, empty suspend point); a destroyed armed promise resolves to no-value; value() maps no-value to await_canceled_exception. The single-winner lemma is an unbounded loop over the claim primitive.',
